@@ -587,6 +587,10 @@ def run(run, tier, seed, replay=None):
         if "pyeq" in run.coverage["streams"]:
             run.coverage["streams"]["pyeq"]["wall_s"] = round(time.time() - t1, 1)
     run.coverage["traces_validated_against_impl"] = run.coverage["evaluations"]
+    # C11E: the exporter's output is in the round trip's normal form (Props/C11E.v) - tie of the pipeline model's package
+    from . import c11e
+    c11e.run_tie(run, tier, seed, replay)
+    run.coverage["traces_validated_against_impl"] = run.coverage["evaluations"]
 
 
 def report(run, sname, jobs, cases, owner, bad, src_err):
